@@ -18,7 +18,7 @@ C03G == Grammar(
     "(try _1 (catch e :h))", "(try _1 (catch e (throw e)))", "(try _1 (catch e (trace! e)))",
     "(try _1 (finally (trace! :f)))", "(try _1 (finally (trace! e)))",
     "(try _1 (catch e e) (finally (trace! e)))", "(list _1 e)", "(trace! _1)",
-    "(try _1 (catch e (list 1 e)))", "(try _1 (catch x (trace! e) x))">>,
+    "(try _1 (catch e (list 1 e)))", "(try _1 (catch x (trace! e) x))", "(try _1 (catch e (str e)))">>,
   <<"(try _1 (catch e _2))", "(try _1 (catch e _2) (finally (trace! :f)))", "(try _1 (finally _2))",
     "(do _1 _2)", "(try _1 _2 (catch e e))", "(try _1 (catch e (trace! e) _2))",
     "(let [e _1] (try _2 (catch e e) (finally (trace! e))))">>,
